@@ -5,7 +5,7 @@
    SCTP chunk and parameter >= 32 bits) and never another exception.
    Only statements; proofs in theories/ParserTiling.v. *)
 From Coq Require Import ZArith List Bool.
-From MS Require Import PyBase Bits Schc Parsers ParserTiling.
+From MS Require Import PyBase Bits Schc Parsers ParserTiling Buffer BufferAbs SchcBytes ParserBytes ParserRefine EndToEnd.
 Import ListNotations.
 Open Scope Z_scope.
 
@@ -21,6 +21,12 @@ Theorem c14_ipv4 pr b : parser_outcome (parse_ipv4 pr b).
 Proof. exact (ipv4_total pr b). Qed.
 Theorem c14_stack s b : parser_outcome (factory s b).
 Proof. exact (factory_total s b). Qed.
+(* the same at the byte level (ParserBytes.v): on every canonical left-padded packet Buffer the byte-level parsers return a
+   packet descriptor or raise ParserError; they never diverge and raise nothing else *)
+Theorem c14_stack_bytes s b : canon b -> bside b = LEFT -> parser_outcome (bfactory s b).
+Proof. exact (bfactory_total s b). Qed.
+Theorem c14_bytes_same_exception s b e : canon b -> bside b = LEFT -> bfactory s b = Exc e -> factory s (abs b) = Exc e.
+Proof. exact (bfactory_exc_inv s b e). Qed.
 
 (* non-vacuity: the former endless loop (common header followed by a zero-length chunk) is rejected *)
 Example c14_ex : parse_sctp (bits_of 96 1 ++ bits_of 32 0) = Exc ParserError /\ parse_coap (bits_of 8 0) = Exc ParserError.
@@ -32,3 +38,5 @@ Print Assumptions c14_udp.
 Print Assumptions c14_ipv6.
 Print Assumptions c14_ipv4.
 Print Assumptions c14_stack.
+Print Assumptions c14_stack_bytes.
+Print Assumptions c14_bytes_same_exception.
